@@ -9,6 +9,7 @@ CONSTANTS
   ParamSeq <- ParamsFull
   DeclSeq <- DeclsFull
   MaxParams = 5
+  MinSize = 4
   Bug = "none"
 INVARIANT CallSolutionSatisfies
 INVARIANT CallUnsatIsDiagnosed
